@@ -2675,11 +2675,12 @@ def c08(tier):
         if not found:
             raise ToolTrouble("spec mutant %s not detected" % bug)
     # the two-limb arithmetic itself, for unbounded naturals at the real base 2^24 (Apalache/SMT): Init => Laws
-    ok, tail = apalache("BigProof.tla", ["--init=AnyInit", "--inv=Laws", "--length=0"], wd, "bigproof")
-    if not ok:
-        log(tail)
-        raise ToolTrouble("Apalache did not discharge BigProof!Laws")
-    rep.notes["apalache_obligations"] = {"obligations": 1, "discharged": 1, "spec": "BigProof.tla (Laws: limb split, add, sub, <, <= agree with integer arithmetic for all naturals, base 2^24)"}
+    if tier == "thorough":
+        ok, tail = apalache("BigProof.tla", ["--init=AnyInit", "--inv=Laws", "--length=0"], wd, "bigproof")
+        if not ok:
+            log(tail)
+            raise ToolTrouble("Apalache did not discharge BigProof!Laws")
+        rep.notes["apalache_obligations"] = {"obligations": 1, "discharged": 1, "spec": "BigProof.tla (Laws: limb split, add, sub, <, <= agree with integer arithmetic for all naturals, base 2^24)"}
     # the writer model at scaled thresholds (NoWrappedSizes, LayoutWellFormed around Thr16/ThrN/Thr32)
     mc_writer(rep, wd, "quick")
     sd = vlib.seed()
